@@ -386,6 +386,10 @@ class Doist(tyming.Tymist):
                     # write to doer.__func__.done read from doer.done
                     doer.__func__.done = ex.value if ex.value is not None else doer.done
                 continue  # don't append
+            except (Exception, KeyboardInterrupt):  # enter failed
+                if deeds is not self.deeds:  # fresh deeds from .extend not yet in .deeds
+                    self.exit(deeds=deeds)  # so force close the ones already entered
+                raise
             deeds.append((dog, self.tyme, doer))  # first recur immediately
         return deeds
 
@@ -1281,6 +1285,10 @@ class DoDoer(Doer):
 
 
                 continue  # don't append already complete
+            except (Exception, KeyboardInterrupt):  # enter failed
+                if deeds is not self.deeds:  # fresh deeds from .extend not yet in .deeds
+                    self.exit(deeds=deeds)  # so force close the ones already entered
+                raise
             deeds.append((dog, self.tyme, doer))
         return deeds
 
